@@ -1,7 +1,7 @@
 #!/bin/bash
 # tools/mutant.sh <outdir under /tmp/mut/out> <property id> [more property ids...]
 # 1. verifies the seeded change in a scratch worktree (applies, builds, the existing suite still passes, the demonstration
-#    fails with it and passes without it); 2. applies it to /repo, runs the named checks (expects exit 1), undoes it;
+#    fails with it and passes without it); 2. runs the named checks against that worktree (expects exit 1);
 # 3. files it under /verif/seeded/<name>/.
 set -u
 export GOFLAGS=-mod=mod GOPROXY=off GOSUMDB=off GOTOOLCHAIN=local
@@ -45,14 +45,13 @@ rm -f /tmp/mutv-$name.json
 if [ $suite -ne 0 ] || [ $with -eq 0 ] || [ $without -ne 0 ]; then echo "MUTANT NOT CONFIRMED"; tail -5 /tmp/mutv-$name.with; exit 3; fi
 cd /verif
 results=""
-[ -z "$(git -C /repo status --porcelain)" ] || { echo "/repo is not clean"; exit 2; }
-git -C /repo apply $src/patch.diff || exit 2
+# the checks run against the scratch worktree with the change applied (VCHECK_REPO, development only), so /repo stays untouched
+git -C $wt apply $src/patch.diff || exit 2
 for id in "$@"; do
-  ./check $id --tier quick > /tmp/mutv-$name.$id.log 2>&1; rc=$?
+  VCHECK_REPO=$wt ./check $id --tier ${TIER:-quick} > /tmp/mutv-$name.$id.log 2>&1; rc=$?
   echo "check $id exit=$rc : $(grep -c '^VIOLATION' /tmp/mutv-$name.$id.log) violation lines; $(tail -1 /tmp/mutv-$name.$id.log | cut -c1-200)"
   results="$results $id=$rc"
 done
-git -C /repo checkout -- .
 mkdir -p /verif/seeded/$name
 cp $src/patch.diff /verif/seeded/$name/patch.diff
 cp $demo /verif/seeded/$name/
